@@ -105,6 +105,19 @@ def build(ctx, case, db):
         blocks = "EQUILIBRIUM_PHASES 1\n %s %s 10\n" % (g, f(target))
         info.update(gases=[g], target=target)
         gases = [g]
+        # company in the assemblage (kept in name order by the engine): a mineral whose name sorts before the gas, or a second gas with its own pressure
+        extra = r.choice([None, None, "Aragonite", "Anhydrite", "Barite", "gas2"])
+        info["targets"] = {g: target}
+        if extra == "gas2":
+            g2 = r.choice([x for x in ["CO2(g)", "N2(g)", "CH4(g)", "O2(g)", "H2S(g)"] if x != g and x in db.phases])
+            t2 = round(math.log10(gens.loguni(r, 0.01, 300)), 3)
+            blocks += " %s %s 10\n" % (g2, f(t2))
+            gases = [g, g2]
+            info["targets"][g2] = t2
+            info["gases"] = gases
+        elif extra:
+            blocks += " %s 0 0\n" % extra
+        info["company"] = extra
     else:
         blocks = "GAS_PHASE 1\n -%s\n" % ("fixed_pressure" if mode == "fixed_p" else "fixed_volume")
         if mode == "fixed_p":
@@ -126,8 +139,9 @@ def build(ctx, case, db):
         heads += ["n:%s" % g, "pp:%s" % g, "phi:%s" % g, "si:%s" % g]
         items += ['GAS("%s")' % g, 'PR_P("%s")' % g, 'PR_PHI("%s")' % g, 'SI("%s")' % g]
     if mode == "eqphase":
-        heads.append("equi")
-        items.append('EQUI("%s")' % gases[0])
+        for g_ in gases:
+            heads.append("equi:%s" % g_)
+            items.append('EQUI("%s")' % g_)
     prog, ln = [], 10
     for i in range(0, len(items), 5):
         prog.append(" %d PUNCH %s" % (ln, ", ".join(items[i:i + 5])))
@@ -212,22 +226,42 @@ def run_case(ctx, case):
     nchk = 0
     sample = dict(id=case["id"], info=info)
     if info["mode"] == "eqphase":
-        g = gases[0]
-        si, phi, n = d.get("si:%s" % g), d.get("phi:%s" % g), d.get("equi")
+      import numpy
+      for g in gases:
+        tgt = info.get("targets", {g: info["target"]})[g]
+        si, phi, n = d.get("si:%s" % g), d.get("phi:%s" % g), d.get("equi:%s" % g)
         if si is None or phi is None or n is None:
             return Result(INCONCLUSIVE, reason="read-outs missing")
         if n > 0:
             par, a_sum, b_sum, a2 = mixture(db, {g: 1.0}, tk)
-            P = 10.0 ** info["target"]
+            P = 10.0 ** tgt
             if three_real_roots(a_sum, b_sum, P, tk):
                 return Result(INCONCLUSIVE, reason="three real roots (two-phase region)")
             nchk += 1
-            sigs.add("eqphase|%s|present" % g)
-            if abs(si - (info["target"] + math.log10(phi))) > 1e-6:
+            sigs.add("eqphase|%s|present|%s" % (g, info.get("company") or "alone"))
+            if abs(si - (tgt + math.log10(phi))) > 1e-6:
                 findings.append(("C19/eqphase-fugacity", "%s in EQUILIBRIUM_PHASES at target log p %.3f, %.1f K: SI = %.9f, target + log10(PR_PHI) = %.9f (phi %.8f)" % (
-                    g, info["target"], tk, si, info["target"] + math.log10(phi), phi)))
+                    g, tgt, tk, si, tgt + math.log10(phi), phi)))
+            # the coefficient itself, from the equation of state of the pure gas at that pressure (the molar volume is the gas root of the cubic)
+            if math.isfinite(a_sum) and b_sum > 0 and P >= 0.01:
+                rts = numpy.roots([P, P * b_sum - R * tk, a_sum - 3 * P * b_sum ** 2 - 2 * R * tk * b_sum, P * b_sum ** 3 + R * tk * b_sum ** 2 - a_sum * b_sum])
+                real = sorted(z.real for z in rts if abs(z.imag) < 1e-9 * max(1.0, abs(z.real)) and z.real > b_sum * (1 + 1e-9))
+                if len(real) == 1 and 0.016 <= real[0] <= 1e4:
+                    vm_ = real[0]
+                    rz = P * vm_ / (R * tk)
+                    A_ = a_sum * P / (R * tk) ** 2
+                    B_ = b_sum * P / (R * tk)
+                    if rz > B_:
+                        lnphi = (rz - 1) - math.log(rz - B_) - A_ / (2.0 * math.sqrt(2.0) * B_) * math.log((rz + (1 + math.sqrt(2.0)) * B_) / (rz - (math.sqrt(2.0) - 1) * B_))
+                        if -4.6 < lnphi < 4.44:
+                            nchk += 1
+                            if abs(math.exp(lnphi) - phi) > 1e-5 * max(phi, 1e-3):
+                                findings.append(("C19/eqphase-phi", "%s: %s held at %.6g atm, %.2f K in EQUILIBRIUM_PHASES (with %s): PR_PHI = %.9g, the Peng-Robinson equation of the pure gas gives %.9g" % (
+                                    case["id"], g, P, tk, info.get("company") or "nothing else", phi, math.exp(lnphi))))
         else:
             sigs.add("eqphase|%s|absent" % g)
+      if True:
+        pass
     else:
         n = {g: d.get("n:%s" % g) for g in gases}
         if any(v is None for v in n.values()):
